@@ -67,6 +67,7 @@ type lkHist struct {
 	lock    sdk.AccAddress
 	val     string
 	shareDn string
+	extraVals []string // further validators the account delegated to (directed two-validator histories)
 	ol      *big.Int
 	startNs *big.Int // effective start
 	endNs   *big.Int
@@ -235,18 +236,31 @@ func (h *lkHist) custody() *big.Int {
 	}
 	t := h.bal("lock", "urise")
 	if h.variant == "nv" {
-		sh := h.bal("lock", h.shareDn)
-		if sh.IsPositive() {
-			v, err := h.c.App.ShareclassKeeper.CalculateAmountByShare(h.c.Ctx(), h.val, sh)
-			if err == nil {
-				sh = v
-			}
-		}
-		t = t.Add(sh).Add(h.scUnb())
+		t = t.Add(h.shareValue()).Add(h.scUnb())
 	} else {
 		t = t.Add(h.bal("plock", "uvrise")).Add(h.stake("plock")).Add(h.ubd("plock"))
 	}
 	return t.BigInt()
+}
+
+// value of the account's share tokens of every validator it delegated to
+func (h *lkHist) shareValue() sdkmath.Int {
+	t := sdkmath.ZeroInt()
+	seen := map[string]bool{}
+	for _, v := range append([]string{h.val}, h.extraVals...) {
+		if seen[v] {
+			continue
+		}
+		seen[v] = true
+		sh := h.bal("lock", sctypes.NonVotingShareTokenDenom(v))
+		if sh.IsPositive() {
+			if a, err := h.c.App.ShareclassKeeper.CalculateAmountByShare(h.c.Ctx(), v, sh); err == nil {
+				sh = a
+			}
+		}
+		t = t.Add(sh)
+	}
+	return t
 }
 
 func floorDiv(a *big.Int, b int64) *big.Int {
@@ -581,13 +595,7 @@ func (h *lkHist) exec(op []string) {
 			tracked := in.dvI.Add(in.dfI).BigInt()
 			var actual *big.Int
 			if h.variant == "nv" {
-				sh := h.bal("lock", h.shareDn)
-				if sh.IsPositive() {
-					if v, err := h.c.App.ShareclassKeeper.CalculateAmountByShare(h.c.Ctx(), h.val, sh); err == nil {
-						sh = v
-					}
-				}
-				actual = new(big.Int).Add(sh.BigInt(), h.undelOK)
+				actual = new(big.Int).Add(h.shareValue().BigInt(), h.undelOK)
 			} else {
 				actual = h.stake("plock").Add(h.ubd("plock")).Add(h.bal("plock", "uvrise")).BigInt()
 			}
@@ -616,8 +624,13 @@ func (h *lkHist) denom(d string) string {
 	return d
 }
 
-func lkNewHist(e *Env) (*lkHist, error) {
+func lkNewHist(e *Env) (*lkHist, error) { return lkNewHistVals(e, nil) }
+
+func lkNewHistVals(e *Env, valPowers []int64) (*lkHist, error) {
 	cfg := sim.DefaultConfig()
+	if valPowers != nil {
+		cfg.ValPowers = valPowers
+	}
 	cfg.GenesisMut = func(_ sim.Codec, gs map[string]json.RawMessage) {
 		var st map[string]json.RawMessage
 		_ = json.Unmarshal(gs["staking"], &st)
